@@ -1183,7 +1183,7 @@ class Norm:
                 fl = strip(e["f"])
                 once = fl.get("k") == "Path" and fl.get("r") == "local" and sum(
                     1 for x in walk(self.body["body"]) if x.get("k") == "Call" and "callee" not in x and strip(x.get("f", {})).get("id") == fl.get("id")) == 1
-                if f[0] == "closure" and f[2] == len(args) and once:
+                if f[0] == "closure" and f[2] == len(args) and (once or len(_show(f[3])) < 400):
                     # calling a closure bound to a local is its body with the arguments in place (like a nested fn that captures)
                     d = f[1]
 
